@@ -35,8 +35,8 @@ func init() {
 			Old: "bytes.NewBuffer(append([]byte(nil), ZeroTimestamp...))", New: "bytes.NewBuffer(ZeroTimestamp)",
 			Expect: "C08-R2 value-alias@CellBytes"},
 		Variant{ID: "c08-r3-reused-rowdata", Prop: "C08", File: "streamer.go",
-			Old: "\tfor i := range rows.Rows {\n\t\tvalues, err := getValuesFromRow(tc, rows, i)\n\t\tif err != nil {\n\t\t\treturn ev, err\n\t\t}\n\t\tev.RowValues = append(ev.RowValues, values)\n\t}\n\treturn ev, nil\n}\n\nfunc appendDeleteEventFromRows",
-			New: "\tvar values *RowData\n\tfor i := range rows.Rows {\n\t\tif values == nil {\n\t\t\tv, err := getValuesFromRow(tc, rows, i)\n\t\t\tif err != nil {\n\t\t\t\treturn ev, err\n\t\t\t}\n\t\t\tvalues = v\n\t\t}\n\t\tev.RowValues = append(ev.RowValues, values)\n\t}\n\treturn ev, nil\n}\n\nfunc appendDeleteEventFromRows",
+			Old:    "\tfor i := range rows.Rows {\n\t\tvalues, err := getValuesFromRow(tc, rows, i)\n\t\tif err != nil {\n\t\t\treturn ev, err\n\t\t}\n\t\tev.RowValues = append(ev.RowValues, values)\n\t}\n\treturn ev, nil\n}\n\nfunc appendDeleteEventFromRows",
+			New:    "\tvar values *RowData\n\tfor i := range rows.Rows {\n\t\tif values == nil {\n\t\t\tv, err := getValuesFromRow(tc, rows, i)\n\t\t\tif err != nil {\n\t\t\t\treturn ev, err\n\t\t\t}\n\t\t\tvalues = v\n\t\t}\n\t\tev.RowValues = append(ev.RowValues, values)\n\t}\n\treturn ev, nil\n}\n\nfunc appendDeleteEventFromRows",
 			Expect: "C08-R3 fresh-per-iteration@appendInsertEventFromRows"},
 	)
 }
@@ -69,6 +69,8 @@ func c08R1(a *A, r *Roles) {
 	}
 	tainted := map[ssa.Value]bool{buf: true}
 	n := 0
+	depth := 0
+	retTainted := false
 	var visit func(v ssa.Value)
 	visit = func(v ssa.Value) {
 		refs := v.Referrers()
@@ -77,7 +79,7 @@ func c08R1(a *A, r *Roles) {
 		}
 		for _, ref := range *refs {
 			n++
-			key := fmt.Sprintf("transport-use@%s#%d", f.Name(), n)
+			key := fmt.Sprintf("transport-use@%s#%d", ref.Parent().Name(), n)
 			switch x := ref.(type) {
 			case *ssa.DebugRef:
 				n--
@@ -113,6 +115,30 @@ func c08R1(a *A, r *Roles) {
 				case isInvokeOf(c, "HandleErrorPacket"):
 					a.hold(rule, key, w.posOf(x), "decoded synchronously by the driver")
 				default:
+					// an in-package function: the same discipline applies to its parameter (bounded depth); what it returns is
+					// transport memory again if it returns (a slice of) the parameter
+					cal := c.StaticCallee()
+					if cal != nil && cal.Blocks != nil && cal.Pkg == w.Root && !c.IsInvoke() && depth < 2 {
+						a.touch(cal)
+						a.hold(rule, key, w.posOf(x), "handed to "+cal.Name()+", whose uses of it are checked in turn")
+						for i, arg := range c.Args {
+							if arg != v || i >= len(cal.Params) || tainted[cal.Params[i]] {
+								continue
+							}
+							tainted[cal.Params[i]] = true
+							savedRet := retTainted
+							retTainted = false
+							depth++
+							visit(cal.Params[i])
+							depth--
+							if retTainted && !tainted[x] {
+								tainted[x] = true
+								visit(x)
+							}
+							retTainted = savedRet
+						}
+						break
+					}
 					a.viol(rule, key, w.posOf(x), "the transport's reused read buffer is passed to %s: whatever keeps it sees later packets overwrite it", shortCallee(c))
 				}
 			case *ssa.Convert:
@@ -120,6 +146,13 @@ func c08R1(a *A, r *Roles) {
 					a.hold(rule, key, w.posOf(x), "copied into a string")
 				} else {
 					a.viol(rule, key, w.posOf(x), "transport buffer converted and kept")
+				}
+			case *ssa.Return:
+				if depth > 0 {
+					retTainted = true
+					a.hold(rule, key, w.posOf(x), "returned to the caller, where it is still treated as transport memory")
+				} else {
+					a.viol(rule, key, w.posOf(ref), "the transport's reused read buffer is returned by the packet decoder: delivered data would change when the next packet arrives")
 				}
 			default:
 				a.viol(rule, key, w.posOf(ref), "the transport's reused read buffer escapes through %T: delivered data would change when the next packet arrives", ref)
@@ -292,7 +325,6 @@ func c08R3(a *A, r *Roles) {
 	}
 	a.atLeast(rule, "fresh-per-iteration@", 4)
 }
-
 
 // freshSlice: v is a slice nobody else can hold: make, a slice of a new array, nil, or the result of an in-package function
 // all of whose returns are such (bounded depth).
